@@ -373,11 +373,15 @@ package dragonboat
 //@ trusted expiry of timed-out read requests
 //@ func (r *ready) set [C06]
 //@ trusted atomic flag
-//@ func (p *pendingReadIndex) applied [C06]
+// gRIAppliedCalled: the read-index table has been told the applied index (this call also drives the
+// expiry of read requests that were never confirmed)
+//@ ghost var gRIAppliedCalled bool
+//@ func (p *pendingReadIndex) applied [C06 C12]
 //@ noframe
 //@ nobounds
 //@ requires p.batches != nil
-//@ modifies held(p.mu), entries(p.batches), p.lastGcTime
+//@ modifies held(p.mu), entries(p.batches), p.lastGcTime, gRIAppliedCalled
+//@ ghostset gRIAppliedCalled := true
 //@ loop 1 step !(sys in p.batches) ==> rb.index > 0 && rb.index <= applied
 
 // ---------------------------------------------------------------- snapshot worker pool (C11)
@@ -440,3 +444,45 @@ package dragonboat
 //@ noframe
 //@ nobounds
 //@ modifies gStopped
+
+// C12 (exactly one terminal result per accepted read): a batch of read requests owns its list -- the
+// slice handed in belongs to the caller (it is one of the two buffers of the input queue and is
+// overwritten by later reads), so the table keeps a private copy holding the same requests
+//@ func (p *pendingReadIndex) add [C12]
+//@ noframe
+//@ nobounds
+//@ requires p.batches != nil && held(p.mu) == 0
+//@ ensures !p.stopped && !old(sys in p.batches) ==> sys in p.batches && fresh(p.batches[sys].requests) && len(p.batches[sys].requests) == len(reqs) && (forall i int :: 0 <= i && i < len(reqs) ==> p.batches[sys].requests[i] == reqs[i])
+
+// C12: whenever a pass of the step worker over a replica found any event (a tick counts: it arrives as
+// a received message), the read-index table is driven (applied index, expiry) -- also when the
+// applied index itself did not move: an accepted read that can never be confirmed (partition, lost
+// quorum) must still expire with a terminal result
+//@ func (n *node) updateAppliedIndex [C12]
+//@ trusted reads the applied index published by the apply worker
+//@ func (n *node) hasEntryToApply [C12]
+//@ trusted queue query
+//@ func (n *node) handleReadIndex [C12]
+//@ trusted moves queued read requests into the raft core
+//@ func (n *node) handleReceivedMessages [C12]
+//@ trusted steps the raft core with the received messages (ticks included)
+//@ func (n *node) handleConfigChange [C12]
+//@ trusted moves queued config change requests into the raft core
+//@ func (n *node) handleProposals [C12]
+//@ trusted moves queued proposals into the raft core
+//@ func (n *node) handleLeaderTransfer [C12]
+//@ trusted moves a queued leader transfer request into the raft core
+//@ func (n *node) handleSnapshot [C12]
+//@ trusted starts a requested snapshot
+//@ func (n *node) handleCompaction [C12]
+//@ trusted starts a requested log compaction
+//@ func (n *node) handleLogQuery [C12]
+//@ trusted answers a queued log query
+//@ func (n *node) gc [C12]
+//@ trusted expiry of proposals, config changes and snapshot requests by the logical clock
+//@ func (n *node) handleEvents [C12 C06]
+//@ noframe
+//@ nobounds
+//@ requires !gRIAppliedCalled && n.pendingReadIndexes.batches != nil
+//@ modifies gRIAppliedCalled
+//@ ensures result1 == nil && result0 ==> gRIAppliedCalled
